@@ -32,15 +32,26 @@ def monthDates (z : Zone) (month : Int) : Nat → Int → List Int
 def HALF : Int := 30 * NS_PER_MIN
 def HOUR_END : Int := NS_PER_HOUR - 1     -- hh:59:59.999999999
 
+/-- months and hours in the order `_iter_date` visits them -/
+def dstMonths (rev : Bool) : List Nat := dstIterNr Gen.dstMonthOrder rev 1 12
+def dstHours (rev : Bool) : List Nat := dstIterNr Gen.dstHourOrder rev 0 24
+
+/-- the instants `_iter_date` yields for one month: the 1st at 00:00 (compatible), then steps of 24 elapsed hours -/
+def dstMonthInstants (z : Zone) (year : Int) (m : Nat) : List Int :=
+  monthDates z (m : Int) 40 (resolveCompatible z (daysFromCivil year (m : Int) 1 * NS_PER_DAY))
+
+/-- everything `_iter_date(reverse=rev)` yields, in order: (instant, hour) -/
+def dstCands (z : Zone) (year : Int) (rev : Bool) : List (Int × Nat) :=
+  (dstMonths rev).flatMap fun (m : Nat) =>
+    (dstHours rev).flatMap fun h => (dstMonthInstants z year m).map fun u => (u, h)
+
+/-- the reading `find_time` tests for a yielded pair: `hh:30` on the local date of the instant -/
+def dstProbe (z : Zone) (c : Int × Nat) : Int := z.localDay c.1 * NS_PER_DAY + (c.2 : Int) * NS_PER_HOUR + HALF
+
 /-- the first (instant, hour) in scan order whose `hh:30` is not valid on the local date of the instant -/
 def dstScan (z : Zone) (year : Int) (rev : Bool) : Option (Int × Nat × Validity) :=
-  let months := dstIterNr Gen.dstMonthOrder rev 1 12
-  let hours := dstIterNr Gen.dstHourOrder rev 0 24
-  let cands : List (Int × Nat) := months.flatMap fun (m : Nat) =>
-    hours.flatMap fun h =>
-      (monthDates z (m : Int) 40 (resolveCompatible z (daysFromCivil year (m : Int) 1 * NS_PER_DAY))).map fun u => (u, h)
-  (cands.find? fun (u, h) => z.validity (z.localDay u * NS_PER_DAY + (h : Int) * NS_PER_HOUR + HALF) ≠ .valid).map
-    fun (u, h) => (u, h, z.validity (z.localDay u * NS_PER_DAY + (h : Int) * NS_PER_HOUR + HALF))
+  ((dstCands z year rev).find? fun c => z.validity (dstProbe z c) ≠ .valid).map
+    fun c => (c.1, c.2, z.validity (dstProbe z c))
 
 /-- `upper.hour - 1 if upper.hour >= 1 else 23` / `lower.hour + 1 if lower.hour < 23 else 0` -/
 def prevHour (h : Nat) : Int := if h ≥ 1 then (h : Int) - 1 else 23
